@@ -156,6 +156,53 @@ void WithType(const std::string& t, F&& f)
 }
 
 //-----------------------------------------------------------------------------
+// Construction of C++ values from the canonical tuples chosen by the specification (save scenarios)
+//-----------------------------------------------------------------------------
+inline uint64_t MagFrom(const JVal& a) { uint64_t m = 0; for (auto& b : a.GetArray()) m = (m << 8) | static_cast<uint64_t>(b.GetUint()); return m; }
+inline int64_t SignedFrom(const JVal& neg, const JVal& mag) { const uint64_t m = MagFrom(mag); return neg.GetBool() ? static_cast<int64_t>(0 - m) : static_cast<int64_t>(m); }
+
+template <class T> void FromCanon(const JVal& v, T& out);
+template <class T> void FromCanon(const JVal& v, std::vector<T>& out);
+template <class K, class V> void FromCanon(const JVal& v, std::map<K, V>& out);
+
+template <class T> void FromCanon(const JVal& v, T& out)
+{
+	if constexpr (std::is_same_v<T, bool>) out = v[1].GetBool();
+	else if constexpr (std::is_same_v<T, std::nullptr_t>) out = nullptr;
+	else if constexpr (std::is_integral_v<T>) out = static_cast<T>(v[1].GetBool() ? (0 - MagFrom(v[2])) : MagFrom(v[2]));
+	else if constexpr (std::is_same_v<T, float>) { uint32_t b = static_cast<uint32_t>(MagFrom(v[1])); std::memcpy(&out, &b, 4); }
+	else if constexpr (std::is_same_v<T, double>) { uint64_t b = MagFrom(v[1]); std::memcpy(&out, &b, 8); }
+	else if constexpr (std::is_same_v<T, std::string>) out = BytesFromJson(v[1]);
+	else if constexpr (std::is_same_v<T, TpNs> || std::is_same_v<T, TpMs> || std::is_same_v<T, std::chrono::nanoseconds>) {
+		// ["ts", neg, mag8(seconds), nanoseconds]  (floor convention: nanoseconds in 0..999999999)
+		const int64_t s = SignedFrom(v[1], v[2]);
+		const int64_t ns = v[3].GetInt64();
+		using D = std::conditional_t<std::is_same_v<T, std::chrono::nanoseconds>, std::chrono::nanoseconds, typename std::conditional_t<std::is_same_v<T, std::chrono::nanoseconds>, TpNs, T>::duration>;
+		const int64_t per = D::period::den / D::period::num;
+		const D d(static_cast<typename D::rep>(s * per + ns / (1000000000 / per)));
+		if constexpr (std::is_same_v<T, std::chrono::nanoseconds>) out = d; else out = T(d);
+	}
+	else if constexpr (std::is_same_v<T, TpS> || std::is_same_v<T, std::chrono::seconds>) {
+		// ["dur", unit, ["int", neg, mag8]]
+		const std::chrono::seconds d(SignedFrom(v[2][1], v[2][2]));
+		if constexpr (std::is_same_v<T, std::chrono::seconds>) out = d; else out = T(d);
+	}
+	else if constexpr (std::is_same_v<T, std::optional<int32_t>>) { if (std::string(v[0].GetString()) == "some") { int32_t x; FromCanon(v[1], x); out = x; } else out.reset(); }
+	else { fprintf(stderr, "FromCanon: unsupported type\n"); exit(3); }
+}
+template <class T> void FromCanon(const JVal& v, std::vector<T>& out)
+{
+	out.clear();
+	if constexpr (sizeof(T) == 1 && std::is_integral_v<T> && !std::is_same_v<T, bool>) { for (auto& b : v[1].GetArray()) out.push_back(static_cast<T>(b.GetUint())); }
+	else { for (auto& e : v[1].GetArray()) { T x{}; FromCanon(e, x); out.push_back(std::move(x)); } }
+}
+template <class K, class V> void FromCanon(const JVal& v, std::map<K, V>& out)
+{
+	out.clear();
+	for (auto& kv : v[1].GetArray()) { K k{}; V x{}; FromCanon(kv[0], k); FromCanon(kv[1], x); out.emplace(std::move(k), std::move(x)); }
+}
+
+//-----------------------------------------------------------------------------
 // The script interpreter
 //-----------------------------------------------------------------------------
 struct Log
@@ -190,32 +237,33 @@ void ScriptObj::Serialize(TArchive& archive)
 			WithType(op["t"].GetString(), [&](auto* tag) {
 				using T = std::remove_pointer_t<decltype(tag)>;
 				T target = Prior<T>();
+				if constexpr (!TArchive::IsLoading()) { if (op.HasMember("v")) FromCanon(op["v"], target); }
 				bool loaded = false;
 				WithKey(op, [&](auto key) {
 					archive << BitSerializer::KeyValue(key, target, [&loaded](const T&, bool isLoaded) -> std::optional<std::string> { loaded = isLoaded; return std::nullopt; });
 				});
-				log->Add(std::string("[\"req\",") + (loaded ? "true" : "false") + "," + Canon(target) + "]");
+				if constexpr (TArchive::IsLoading()) log->Add(std::string("[\"req\",") + (loaded ? "true" : "false") + "," + Canon(target) + "]");
 			});
 		}
 		else if (kind == "obj")
 		{
 			ScriptObj child{ &op["ops"], log };
 			bool loaded = false;
-			log->Add("[\"open\"]");
+			if constexpr (TArchive::IsLoading()) log->Add("[\"open\"]");
 			WithKey(op, [&](auto key) {
 				archive << BitSerializer::KeyValue(key, child, [&loaded](const ScriptObj&, bool isLoaded) -> std::optional<std::string> { loaded = isLoaded; return std::nullopt; });
 			});
-			log->Add(std::string("[\"close\",") + (loaded ? "true" : "false") + "]");
+			if constexpr (TArchive::IsLoading()) log->Add(std::string("[\"close\",") + (loaded ? "true" : "false") + "]");
 		}
 		else if (kind == "arr")
 		{
-			ScriptArr child{ &op["ops"], log, op.HasMember("declared") ? op["declared"].GetUint() : 0u };
+			ScriptArr child{ &op["ops"], log, op.HasMember("declared") ? op["declared"].GetUint() : static_cast<unsigned>(op["ops"].Size()) };
 			bool loaded = false;
-			log->Add("[\"open\"]");
+			if constexpr (TArchive::IsLoading()) log->Add("[\"open\"]");
 			WithKey(op, [&](auto key) {
 				archive << BitSerializer::KeyValue(key, child, [&loaded](const ScriptArr&, bool isLoaded) -> std::optional<std::string> { loaded = isLoaded; return std::nullopt; });
 			});
-			log->Add(std::string("[\"close\",") + (loaded ? "true" : "false") + "]");
+			if constexpr (TArchive::IsLoading()) log->Add(std::string("[\"close\",") + (loaded ? "true" : "false") + "]");
 		}
 		else if (kind == "visit")
 		{
@@ -247,23 +295,24 @@ void SerializeArray(TArchive& archive, ScriptArr& arr)
 			WithType(op["t"].GetString(), [&](auto* tag) {
 				using T = std::remove_pointer_t<decltype(tag)>;
 				T target = Prior<T>();
+				if constexpr (!TArchive::IsLoading()) { if (op.HasMember("v")) FromCanon(op["v"], target); }
 				const bool loaded = BitSerializer::Serialize(archive, target);
-				arr.log->Add(std::string("[\"elem\",") + (loaded ? "true" : "false") + "," + Canon(target) + "]");
+				if constexpr (TArchive::IsLoading()) arr.log->Add(std::string("[\"elem\",") + (loaded ? "true" : "false") + "," + Canon(target) + "]");
 			});
 		}
 		else if (kind == "obj")
 		{
 			ScriptObj child{ &op["ops"], arr.log };
-			arr.log->Add("[\"open\"]");
+			if constexpr (TArchive::IsLoading()) arr.log->Add("[\"open\"]");
 			const bool loaded = BitSerializer::Serialize(archive, child);
-			arr.log->Add(std::string("[\"close\",") + (loaded ? "true" : "false") + "]");
+			if constexpr (TArchive::IsLoading()) arr.log->Add(std::string("[\"close\",") + (loaded ? "true" : "false") + "]");
 		}
 		else if (kind == "arr")
 		{
-			ScriptArr child{ &op["ops"], arr.log, op.HasMember("declared") ? op["declared"].GetUint() : 0u };
-			arr.log->Add("[\"open\"]");
+			ScriptArr child{ &op["ops"], arr.log, op.HasMember("declared") ? op["declared"].GetUint() : static_cast<unsigned>(op["ops"].Size()) };
+			if constexpr (TArchive::IsLoading()) arr.log->Add("[\"open\"]");
 			const bool loaded = BitSerializer::Serialize(archive, child);
-			arr.log->Add(std::string("[\"close\",") + (loaded ? "true" : "false") + "]");
+			if constexpr (TArchive::IsLoading()) arr.log->Add(std::string("[\"close\",") + (loaded ? "true" : "false") + "]");
 		}
 		else if (kind == "isend")
 		{
@@ -355,6 +404,42 @@ std::string RunLoad(const JVal& scn, const std::string& doc, const std::string& 
 	}
 	catch (...) { exc = DescribeException(); }
 	return "{\"medium\":\"" + medium + "\",\"ev\":[" + log.ev + "],\"exc\":" + exc + ",\"refused\":" + (refused ? "true" : "false") + "}";
+}
+
+
+// Executes the save part of a scenario (root script with values) to memory and to a stream; logs both byte strings
+template <class TArchive>
+std::string RunSave(const JVal& scn)
+{
+	const auto options = OptionsFrom(scn);
+	const JVal& root = scn["root"];
+	const std::string rk = root["k"].GetString();
+	Log log;
+	std::string out[2], exc[2] = { "[\"none\"]", "[\"none\"]" };
+	for (int medium = 0; medium < 2; ++medium)
+	{
+		TerminateContext() = std::string(scn["id"].GetString()) + (medium ? "/save-stream" : "/save-mem");
+		try
+		{
+			std::ostringstream stream(std::ios::out | std::ios::binary);
+			auto saveWith = [&](auto& value) {
+				if (medium == 0) BitSerializer::SaveObject<TArchive>(value, out[0], options);
+				else { BitSerializer::SaveObject<TArchive>(value, stream, options); out[1] = stream.str(); }
+			};
+			if (rk == "obj") { ScriptObj o{ &root["ops"], &log }; saveWith(o); }
+			else if (rk == "arr") { ScriptArr a{ &root["ops"], &log, static_cast<size_t>(root["ops"].Size()) }; saveWith(a); }
+			else {
+				WithType(root["t"].GetString(), [&](auto* tag) {
+					using T = std::remove_pointer_t<decltype(tag)>;
+					T value = Prior<T>();
+					FromCanon(root["v"], value);
+					saveWith(value);
+				});
+			}
+		}
+		catch (...) { exc[medium] = DescribeException(); }
+	}
+	return "{\"mem\":" + BytesJson(out[0]) + ",\"stream\":" + BytesJson(out[1]) + ",\"excmem\":" + exc[0] + ",\"excstream\":" + exc[1] + "}";
 }
 
 }  // namespace vh
